@@ -15,7 +15,7 @@ def make_list(names):
 
 def h19a_index(key, n):
     """lookup by any integer index agrees with iteration order; IndexError outside [-n, n)"""
-    il = make_list(["a", "b", "c", "d"][:n])
+    il = make_list(["a", "b", "c", "d", "e", "f", "g", "h"][:n])
     items = list(il._items)
     try:
         r = il[key]
@@ -202,8 +202,8 @@ DIGITISH = [(0x30, 0x39), (0x41, 0x5A), (0x61, 0x7A)]
 ASCII2 = [(0x20, 0x7E)]
 
 HARNESSES = [
-    Harness("H19a", h19a_index, dict(key=IntDom(), n=Cases([0, 1, 2, 3, 4])),
-            bounds="key: every Python int (unbounded Int); n = 0..4 items",
+    Harness("H19a", h19a_index, lambda tier: dict(key=IntDom(), n=Cases([0, 1, 2, 3, 4] if tier == "quick" else [0, 1, 2, 3, 4, 5, 6, 7, 8])),
+            bounds="key: every Python int (unbounded Int); n = 0..4 items (quick) / 0..8 (thorough)",
             outside=["names and order after save/reopen (protobuf/zip I/O)"]),
     Harness("H19b", h19b_name,
             lambda tier: dict(n0=StrDom(1 if tier == "quick" else 2, ASCII2), n1=StrDom(1 if tier == "quick" else 2, ASCII2),
